@@ -125,7 +125,7 @@ def _task(spec):
                 q, r = _tile_index(sp_idx[ax], N, m)
                 sp_idx[ax] = r
                 v = X.at_index(tuple(idx[:lead]) + tuple(A._raw_index(i) for i in sp_idx))
-                if with_phase and cplx and phi is not 1:
+                if with_phase and cplx and not isinstance(phi, int):
                     f = 1
                     for j in range(1, m):
                         f = ite(A.v_eq(q, j), _cpow(phi, j), f)
